@@ -18,6 +18,11 @@ def builder(seed, n, defaults, tag):
             kw["events"] = gen.gen_events(rng, kw["prob"], kw["x0"], kw["xend"])
         if rng.random() < 0.15:
             kw["max_steps"] = rng.randint(2, max(3, len(grid) - 1))
+        if rng.random() < 0.2:
+            # the handler's "first output at x0 + first_step" path returns early from the callback (seeded change
+            # C06-b moved the segment collection behind those returns)
+            kw["first_step"] = abs(kw["xend"] - kw["x0"]) * rng.choice([1e-3, 0.01, 0.1, 0.5])
+            meta["first_step"] = True
         # queries: stored sample times, both sides of interior joints, clearly outside
         idx = sorted(set([0, len(grid) - 1] + [rng.randrange(len(grid)) for _ in range(6)]))
         q = [grid[i] for i in idx]
